@@ -26,6 +26,12 @@ func runC03(c *Ctx, r *Report) {
 	r.Doc("R-C03.5", "values() walks from the receiver's heads over the receiver's Entries")
 	r.Doc("R-C03.7", "the predecessor index is extended in the same pass as the entry index (an entry's links are indexed iff the entry is inserted)")
 	r.Doc("R-C03.8", "head maps handed out as snapshots are never mutated in place (Merge is pure)")
+	r.Doc("R-C03.9", "a refused append or merge leaves the indexes the linearisation walks untouched (phantom links cut entries off from Values())")
+	refusedOperationsLeaveNoTrace(c, r, "R-C03.9")
+	r.Doc("R-C03.10", "the head scan the linearisation starts from is exact: predecessor links only, every entry examined (a head lost by FindHeads cuts its whole branch off from Values())")
+	findHeadsShape(c, r, "R-C03.10")
+	r.Doc("R-C03.11", "a reopened log linearises with the comparator it was configured with")
+	optionForwarding(c, r, "R-C03.11", append(constructorLoaderSpecs(), constructorLogSpecs()...), "SortFn")
 	pureMerge(c, r, "R-C03.8")
 	{
 		join := p.FuncI("", "IPFSLog", "Join")
